@@ -122,9 +122,13 @@ func maxOfUnsigned(v ssa.Value, depth int) float64 {
 	return typeMax(v.Type())
 }
 
-func ruleWidenFirst(pkgs []string, prop string) func(c *Ctx, r *Rep, tier string) {
+func ruleWidenFirst(pkgs []string, prop string, minSites ...int) func(c *Ctx, r *Rep, tier string) {
 	return func(c *Ctx, r *Rep, tier string) {
 		rule := "WIDEN-FIRST"
+		wantSites := 20
+		if len(minSites) > 0 {
+			wantSites = minSites[0]
+		}
 		n := 0
 		for _, pkg := range pkgs {
 			for _, fn := range c.FuncsIn(pkg) {
@@ -171,7 +175,7 @@ func ruleWidenFirst(pkgs []string, prop string) func(c *Ctx, r *Rep, tier string
 			}
 		}
 		r.Instance(rule, 1)
-		r.Check(n >= 20, rule, prop+"#sites", "-", fmt.Sprintf("%d widening conversions and slice bounds examined", n), fmt.Sprintf("only %d widening conversions and slice bounds found in %v: the rule's anchor moved", n, pkgs))
+		r.Check(n >= wantSites, rule, prop+"#sites", "-", fmt.Sprintf("%d widening conversions and slice bounds examined", n), fmt.Sprintf("only %d widening conversions and slice bounds found in %v: the rule's anchor moved", n, pkgs))
 	}
 }
 
